@@ -181,12 +181,16 @@ theorem foldl_pushRead_done : ∀ (l : List Aln) (st : OverlapState),
     rw [hst, ih st' hp (hnew' st' hd) hnd.2, hd, happ]
 
 /-- without two buffered records sharing a read name the overlap machinery is inert -/
-theorem engineReads_of_nodup (contig : String) (start stop : Nat) (reads : List Aln)
-    (h : ((reads.filter (fun a => regionFetched contig start stop a && enginePasses a)).map Aln.qname).Nodup) :
-    engineReads contig start stop reads = reads.filter (fun a => regionFetched contig start stop a && enginePasses a) := by
+theorem engineReads_of_nodup (e : EngineCfg) (contig : String) (start stop : Nat) (reads : List Aln)
+    (h : ((reads.filter (fun a => regionFetched contig start stop a && enginePasses e a)).map Aln.qname).Nodup) :
+    engineReads e contig start stop reads
+      = reads.filter (fun a => regionFetched contig start stop a && enginePasses e a) := by
   unfold engineReads
-  rw [foldl_pushRead_done _ {} (by simp) (by simp) h]
-  simp
+  simp only
+  split_ifs
+  · rw [foldl_pushRead_done _ {} (by simp) (by simp) h]
+    simp
+  · rfl
 
 theorem regionFetched_of_column {contig : String} {start stop p : Nat} (hp : start ≤ p ∧ p < stop) {a : Aln}
     (hc : a.contig = contig) {qr : Nat × Nat} (hf : a.samPairs.find? (fun qr => qr.2 == p) = some qr) :
@@ -203,22 +207,26 @@ theorem regionFetched_of_column {contig : String} {start stop p : Nat} (hp : sta
     · omega
 
 /-- **partial correctness of the depths**: for every position of the region, the model's depths are the specified ones
-provided (i) on the records the region fetches the engine's fixed read filter decides like the configured one,
-(ii) every base quality is at least 13, (iii) no two buffered records share a read name -/
+provided (i) on the records the region fetches the engine's read filter (`engineCfgOf cfg`, today a constant) decides
+like the configured one, (ii) every base quality reaches the engine's minimum (13), (iii) no two buffered records share a read name -/
 theorem depths_eq_spec_partial (cfg : FilterCfg) (bams : List (List Aln)) (contig : String) (start stop i : Nat)
     (hi : i < stop - start)
-    (hfilt : ∀ reads ∈ bams, ∀ a ∈ reads, regionFetched contig start stop a = true → enginePasses a = cfgPasses cfg a)
-    (hqual : ∀ reads ∈ bams, ∀ a ∈ reads, a.qualList.length = a.seq.length ∧ ∀ q ∈ a.qualList, 13 ≤ q)
+    (hfilt : ∀ reads ∈ bams, ∀ a ∈ reads, regionFetched contig start stop a = true →
+      enginePasses (engineCfgOf cfg) a = cfgPasses cfg a)
+    (hqual : ∀ reads ∈ bams, ∀ a ∈ reads,
+      a.qualList.length = a.seq.length ∧ ∀ q ∈ a.qualList, (engineCfgOf cfg).minBaseQ ≤ q)
     (hname : ∀ reads ∈ bams,
-      ((reads.filter (fun a => regionFetched contig start stop a && enginePasses a)).map Aln.qname).Nodup) :
+      ((reads.filter (fun a => regionFetched contig start stop a && enginePasses (engineCfgOf cfg) a)).map
+        Aln.qname).Nodup) :
     (bamRegionDepths cfg bams contig start stop)[i]? =
       some (bams.map (fun reads => specDepth cfg reads contig (start + i))) := by
   unfold bamRegionDepths
+  simp only
   rw [List.getElem?_map, List.getElem?_range hi]
   simp only [Option.map_some, Option.some.injEq]
   apply List.map_congr_left
   intro reads hr
-  rw [engineReads_of_nodup _ _ _ _ (hname reads hr)]
+  rw [engineReads_of_nodup _ _ _ _ _ (hname reads hr)]
   unfold specDepth countColumn
   apply List.map_congr_left
   intro k _
@@ -233,13 +241,13 @@ theorem depths_eq_spec_partial (cfg : FilterCfg) (bams : List (List Aln)) (conti
       have hreg := regionFetched_of_column hp hc hf
       have hfe := hfilt reads hr a ha hreg
       obtain ⟨hlen, hq⟩ := hqual reads hr a ha
-      have hbase : columnBase 13 a (start + i) = specBase a (start + i) := by
+      have hbase : columnBase (engineCfgOf cfg).minBaseQ a (start + i) = specBase a (start + i) := by
         unfold columnBase specBase
         simp only [hf, Option.bind_some]
         by_cases hlt : qr.1 < a.seq.length
         · have hlt' : qr.1 < a.qualList.length := by omega
           have hge : a.qualList[qr.1]? = some a.qualList[qr.1] := List.getElem?_eq_getElem hlt'
-          have h13 : 13 ≤ a.qualList[qr.1] := hq _ (List.getElem_mem hlt')
+          have h13 : (engineCfgOf cfg).minBaseQ ≤ a.qualList[qr.1] := hq _ (List.getElem_mem hlt')
           simp only [List.getD_eq_getElem?_getD, hge, Option.getD_some, Nat.not_lt.mpr h13, if_false]
         · have : a.seq[qr.1]? = none := by simp [Nat.le_of_not_lt hlt]
           simp [this]
